@@ -49,6 +49,8 @@ def xyz():
 
 def spell_var_dims(vars_, spelling):
     if all(not d for _, d in vars_):
+        if spelling == "aligned_tuple":
+            return [() for _ in vars_]
         return None if spelling != "dict" else {n: () for n, _ in vars_}
     if spelling == "dict":
         return {n: (d[0] if len(d) == 1 else tuple(d)) for n, d in vars_ if d}
@@ -139,7 +141,11 @@ def run_case(case):
     desc_kw = dict(var_dims=var_dims, var_coords=var_coords,
                    resources=resources or None, attrs=attrs or None)
     if to_df:
-        desc_kw.pop("var_dims"), desc_kw.pop("var_coords")
+        desc_kw.pop("var_coords")
+        if not isinstance(var_dims, list):
+            # (the description of scalar outputs - one () per variable - may
+            # be passed along; anything else has no place in a table)
+            desc_kw.pop("var_dims")
 
     import copy
     attrs_before = copy.deepcopy(attrs)
@@ -293,7 +299,7 @@ def runner_desc(draw, to_df=False, allow_xobj=True):
     ret = draw(st.sampled_from(rets))
     xobj = ret in ("dataset", "dataarray", "dict")
     spellings = ["dict", "dict_tuple_keys"]
-    if any(d for _, d in vars_):
+    if any(d for _, d in vars_) or to_df:
         # one entry per variable, () for a scalar one
         spellings.append("aligned_tuple")
         if nvars == 1 and len(vars_[0][1]) == 1:
